@@ -598,7 +598,15 @@ class HttpStreamSession:
         # Strip state token from user-visible metadata
         user_cm = strip_keys(ab.custom_metadata, STATE_KEY, CALL_STATE_KEY)
 
-        _drain_stream(reader)
+        # Whatever follows the data batch are log batches the step emitted
+        # after it.  Deliver them (the pipe transports do, on the next read)
+        # rather than discarding the rest of the response.
+        while True:
+            try:
+                tail_batch, tail_cm = reader.read_next_batch_with_custom_metadata()
+            except StopIteration:
+                break
+            _dispatch_log_or_error(tail_batch, tail_cm, self._on_log)
         return AnnotatedBatch(batch=ab.batch, custom_metadata=user_cm)
 
     def _send_continuation(self, token: bytes) -> ValidatedReader:
